@@ -246,3 +246,2288 @@ def rule_loopvar(ctx, rid='C21-LOOPVAR', floor=4):
             hit = True
     r.positive_control(hit, 'target re-assigned after the loop')
     return r
+
+
+import itertools
+
+# ================================================================================================================ MiniPy
+# A small interpreter for the Python fragment the compiler's tree builders and analyses are written in.  It belongs to the checker:
+# nothing of the repository is imported or executed; the *source* (ast) of a method is interpreted over values the checker constructs
+# (abstract tree nodes whose leaves are opaque, stub symbol-table entries, recorder objects).  It is used to obtain, for every member of
+# a finite family of abstract inputs, the structure a repository function builds (a control-flow graph, a rewritten tree, an emitted
+# statement skeleton), which the rule then compares with a reference it computes itself from the language definition.
+# Anything outside the fragment raises Unmodelled (-> the rule reports "not decided", never a guess).
+import ast as _ast
+import operator as _op
+
+
+class Unmodelled(Exception):
+    pass
+
+
+class PyRaise(Exception):
+    """an exception raised by the interpreted code; .value is a host exception instance or an Obj of an interpreted exception class"""
+
+    def __init__(self, value):
+        Exception.__init__(self, repr(value))
+        self.value = value
+
+
+class _Return:
+    """pending `return` of an interpreted function (statement executors return it instead of raising)"""
+    __slots__ = ('value',)
+
+    def __init__(self, value):
+        self.value = value
+
+
+_BREAK, _CONTINUE = object(), object()
+
+
+class Obj:
+    """instance of an interpreted (repository) class or of a checker-defined stub class"""
+    __slots__ = ('cls', 'attrs')
+
+    def __init__(self, cls, attrs=None):
+        self.cls = cls
+        self.attrs = attrs if attrs is not None else {}
+
+    def __repr__(self):
+        return '<%s%s>' % (self.cls.name, (' ' + str(self.attrs['$tag'])) if '$tag' in self.attrs else '')
+
+
+class ClassVal:
+    """an interpreted class: wraps a pyindex.ClassInfo"""
+
+    def __init__(self, ci):
+        self.ci = ci
+        self.name = ci.name
+        self.cache = {}
+
+    def __repr__(self):
+        return '<class %s>' % self.ci.qual
+
+
+class StubClass:
+    """checker-defined class: attrs (values) and methods (host callables taking (interp, self, *args, **kw))"""
+
+    def __init__(self, name, bases=(), attrs=None, methods=None, default=None):
+        self.name, self.bases, self.attrs, self.methods = name, tuple(bases), attrs or {}, methods or {}
+        self.default = default          # optional host callable (obj, attribute name) -> value for attributes that are not listed (raise AttributeError to refuse)
+
+    def __repr__(self):
+        return '<stubclass %s>' % self.name
+
+
+class Func:
+    __slots__ = ('node', 'env', 'module', 'owner', 'name', 'kind')
+
+    def __init__(self, node, env, module, owner=None, kind='function'):
+        self.node, self.env, self.module, self.owner, self.kind = node, env, module, owner, kind
+        self.name = getattr(node, 'name', '<lambda>')
+
+    def __repr__(self):
+        return '<func %s>' % self.name
+
+
+class BoundMethod:
+    __slots__ = ('func', 'self')
+
+    def __init__(self, func, self_):
+        self.func, self.self = func, self_
+
+
+class HostFn:
+    """host callable fn(interp, *args, **kwargs)"""
+    __slots__ = ('fn', 'name')
+
+    def __init__(self, fn, name=None):
+        self.fn, self.name = fn, name or getattr(fn, '__name__', 'host')
+
+    def __repr__(self):
+        return '<hostfn %s>' % self.name
+
+
+class ModuleVal:
+    def __init__(self, module):
+        self.module = module
+        self.cache = {}
+
+    def __repr__(self):
+        return '<module %s>' % self.module.short
+
+
+class StubModule:
+    def __init__(self, name, names):
+        self.name, self.names = name, names
+
+
+class SuperProxy:
+    __slots__ = ('obj', 'after')
+
+    def __init__(self, obj, after):
+        self.obj, self.after = obj, after
+
+
+class Env:
+    __slots__ = ('vars', 'parent', 'nonlocals', 'globals_')
+
+    def __init__(self, parent=None):
+        self.vars = {}
+        self.parent = parent
+        self.nonlocals = None
+        self.globals_ = None
+
+    def lookup(self, name):
+        e = self
+        while e is not None:
+            if name in e.vars:
+                return e.vars
+            e = e.parent
+        return None
+
+
+_MISSING = object()
+_BINOPS = {_ast.Add: _op.add, _ast.Sub: _op.sub, _ast.Mult: _op.mul, _ast.FloorDiv: _op.floordiv, _ast.Mod: _op.mod, _ast.BitOr: _op.or_, _ast.BitAnd: _op.and_,
+           _ast.BitXor: _op.xor, _ast.LShift: _op.lshift, _ast.RShift: _op.rshift, _ast.Div: _op.truediv, _ast.Pow: _op.pow}
+_HOST_TYPES = (int, str, bytes, float, bool, list, tuple, dict, set, frozenset, type(None), range, type(iter([])), type(iter(())), type(iter({})), type(iter(set())),
+               type(reversed([])), type(enumerate([])), type(zip()), type(iter(range(0))), type({}.items()), type({}.keys()), type({}.values()), type(map(int, [])), type(x for x in ()), slice,
+               type(iter({}.items())), type(iter({}.values())), type(reversed({}.keys())))
+_HOST_EXC = {'ValueError': ValueError, 'TypeError': TypeError, 'KeyError': KeyError, 'IndexError': IndexError, 'AssertionError': AssertionError, 'AttributeError': AttributeError,
+             'RuntimeError': RuntimeError, 'Exception': Exception, 'BaseException': BaseException, 'StopIteration': StopIteration, 'NotImplementedError': NotImplementedError,
+             'UnicodeEncodeError': UnicodeEncodeError, 'LookupError': LookupError, 'OverflowError': OverflowError}
+
+
+class MiniPy:
+    def __init__(self, ix, stub_modules=None, family_overrides=None, max_steps=400000):
+        self.ix = ix
+        self.stub_modules = stub_modules or {}          # module short name -> {name: value}  (consulted before the module's own bindings)
+        self.family_overrides = family_overrides or {}  # (family class name, method name) -> host callable(interp, self, *a, **k): wins over own definitions
+        self.max_steps = max_steps
+        self.steps = 0
+        self.classvals = {}
+        self.modvals = {}
+        self.module_envs = {}
+        self.builtins = self._builtins()
+        self.call_depth = 0
+        self._xd, self._ed, self._fc = {}, {}, {}
+        self._sigs = {}
+        self.fstack = []
+
+    # ------------------------------------------------------------------------------------------------ values of the index
+    def classval(self, ci):
+        cv = self.classvals.get(id(ci))
+        if cv is None:
+            cv = self.classvals[id(ci)] = ClassVal(ci)
+        return cv
+
+    def cls(self, mod, name):
+        return self.classval(self.ix.cls(mod, name))
+
+    def modval(self, m):
+        mv = self.modvals.get(m.name)
+        if mv is None:
+            mv = self.modvals[m.name] = ModuleVal(m)
+        return mv
+
+    def mro(self, c):
+        """linearisation of a ClassVal / StubClass as a list of ClassVal / StubClass"""
+        if isinstance(c, ClassVal):
+            v = c.cache.get('$mro')
+            if v is None:
+                v = c.cache['$mro'] = [self.classval(k) for k in self.ix.mro(c.ci)]
+            return v
+        out = [c]
+        for b in c.bases:
+            for k in self.mro(b):
+                if k not in out:
+                    out.append(k)
+        return out
+
+    def mro_names(self, c):
+        key = ('$mro_names',)
+        cache = c.cache if isinstance(c, ClassVal) else c.attrs
+        v = cache.get(key)
+        if v is None:
+            v = cache[key] = frozenset(k.name for k in self.mro(c))
+            if isinstance(c, ClassVal):
+                extra = set()
+                for k in self.ix.mro(c.ci):
+                    extra.update(k.unresolved_bases)
+                v = cache[key] = v | frozenset(extra)
+        return v
+
+    def module_global(self, m, name):
+        """value of a module-level name of module m (lazily evaluated), or _MISSING"""
+        stubs = self.stub_modules.get(m.short)
+        if stubs is not None and name in stubs:
+            return stubs[name]
+        mv = self.modval(m)
+        if stubs is not None and '*' in stubs and name not in mv.cache:
+            mv.cache[name] = stubs['*'](name)
+        if name in mv.cache:
+            return mv.cache[name]
+        r = self.ix.resolve_name(m, name)
+        val = _MISSING
+        if r is not None and r[0] in ('class', 'func', 'value'):
+            # names that live in a module the rule replaces wholesale (stub_modules[short]['*'] = factory)
+            home = r[1].module if r[0] == 'class' else r[1]
+            hs = self.stub_modules.get(home.short)
+            if hs is not None and name in hs:
+                mv.cache[name] = hs[name]
+                return hs[name]
+            if hs is not None and '*' in hs:
+                mv.cache[name] = val = hs['*'](name)
+                return val
+        if r is not None:
+            if r[0] == 'class':
+                val = self.classval(r[1])
+            elif r[0] == 'func':
+                val = Func(r[2], None, r[1])
+            elif r[0] == 'module':
+                val = self.modval(r[1])
+            elif r[0] == 'value':
+                node = r[2]
+                if isinstance(node, _ast.AST) and not isinstance(node, (_ast.ClassDef, _ast.FunctionDef)):
+                    mv.cache[name] = _MISSING        # cycle guard
+                    val = self.eval(node, self.module_env(r[1]))
+                elif isinstance(node, _ast.ClassDef):
+                    for cc in self.ix.classes_by_name[node.name]:
+                        if cc.node is node:
+                            val = self.classval(cc)
+                elif isinstance(node, _ast.FunctionDef):
+                    val = Func(node, None, r[1])
+            elif r[0] in ('extmodule', 'extsymbol'):
+                val = self.external(r)
+        mv.cache[name] = val
+        return val
+
+    def external(self, r):
+        """names imported from outside the analysed packages: the parts of the standard library the interpreted fragment uses"""
+        import functools as _functools, itertools as _itertools, collections as _collections, operator as _operator
+
+        def partial(it, f, *a, **k):
+            return HostFn(lambda it2, *a2, **k2: it2.call(f, list(a) + list(a2), dict(k, **k2)), 'partial')
+
+        def reduce(it, f, xs, *init):
+            g = it.as_host_callable(f)
+            return _functools.reduce(g, it.iterate(xs), *init)
+
+        def attrgetter(it, *names):
+            if len(names) == 1:
+                return HostFn(lambda it2, o: it2.getattr(o, names[0]), 'attrgetter')
+            return HostFn(lambda it2, o: tuple(it2.getattr(o, n) for n in names), 'attrgetter')
+
+        def defaultdict(it, factory=None, *a):
+            return _collections.defaultdict(it.as_host_callable(factory) if factory is not None else None, *a)
+        table = {
+            'copy': {'copy': HostFn(lambda it, o: it.shallow_copy(o), 'copy.copy')},
+            'functools': {'partial': HostFn(partial, 'partial'), 'reduce': HostFn(reduce, 'reduce')},
+            'itertools': {'chain': HostFn(lambda it, *xs: _itertools.chain(*[it.iterate(x) for x in xs]), 'chain'),
+                          'product': HostFn(lambda it, *xs, **k: _itertools.product(*[it.iterate(x) for x in xs], **k), 'product'),
+                          'count': HostFn(lambda it, *a: _itertools.count(*a), 'count')},
+            'collections': {'defaultdict': HostFn(defaultdict, 'defaultdict'), 'OrderedDict': HostFn(lambda it, *a, **k: dict(*a, **k), 'OrderedDict')},
+            'operator': dict({n: HostFn((lambda fn: lambda it, *a: fn(*a))(getattr(_operator, n)), n) for n in ('or_', 'and_', 'add', 'sub', 'mul', 'not_', 'inv', 'neg', 'pos', 'eq', 'ne', 'lt', 'le',
+                                                                                                    'gt', 'ge', 'xor', 'lshift', 'rshift', 'floordiv', 'mod', 'truediv', 'matmul',
+                                                                                                    'itemgetter', 'index')},
+                             attrgetter=HostFn(attrgetter, 'attrgetter')),
+            'cython': {}, 'enum': {}, 'sys': {}, 'os': {}, 're': {},
+        }
+        if r[0] == 'extmodule':
+            top = r[1].split('.')[0]
+            if top in table:
+                return StubModule(top, table[top])
+            return _MISSING
+        if r[0] == 'extsymbol':
+            top = (r[1] or '').split('.')[0]
+            if top in table and r[2] in table[top]:
+                return table[top][r[2]]
+        return _MISSING
+
+    def shallow_copy(self, o):
+        if isinstance(o, Obj):
+            return Obj(o.cls, dict(o.attrs))
+        import copy as _copy
+        return _copy.copy(o)
+
+    def module_env(self, m):
+        e = self.module_envs.get(m.name)
+        if e is None:
+            e = self.module_envs[m.name] = Env()
+            e.globals_ = m
+        return e
+
+    # ------------------------------------------------------------------------------------------------ builtins
+    def _builtins(self):
+        it = self
+
+        def _isinstance(_, v, c):
+            return it.isinstance(v, c)
+
+        def _issubclass(_, a, b):
+            bs = b if isinstance(b, tuple) else (b,)
+            if isinstance(a, (ClassVal, StubClass)):
+                return any(k is x for x in bs for k in it.mro(a))
+            return issubclass(a, tuple(x for x in bs if isinstance(x, type)))
+
+        def _getattr(_, o, name, default=_MISSING):
+            try:
+                return it.getattr(o, name)
+            except PyRaise as e:
+                if default is not _MISSING and isinstance(e.value, AttributeError):
+                    return default
+                raise
+
+        def _hasattr(_, o, name):
+            try:
+                it.getattr(o, name)
+                return True
+            except PyRaise as e:
+                if isinstance(e.value, AttributeError):
+                    return False
+                raise
+
+        def _setattr(_, o, name, v):
+            it.setattr(o, name, v)
+
+        def _type(_, o):
+            if isinstance(o, Obj):
+                return o.cls
+            return type(o)
+
+        def _sorted(_, xs, key=None, reverse=False):
+            return sorted(it.iterate(xs), key=(it.as_host_callable(key) if key is not None else None), reverse=reverse)
+
+        def _map(_, f, *xs):
+            g = it.as_host_callable(f)
+            return map(g, *[it.iterate(x) for x in xs])
+
+        def _filter(_, f, xs):
+            g = it.as_host_callable(f) if f is not None else None
+            return filter(g, it.iterate(xs))
+
+        def _any(_, xs):
+            return any(it.truth(x) for x in it.iterate(xs))
+
+        def _all(_, xs):
+            return all(it.truth(x) for x in it.iterate(xs))
+
+        def _len(_, x):
+            return it.length(x)
+
+        def _list(_, xs=()):
+            return list(it.iterate(xs))
+
+        def _tuple(_, xs=()):
+            return tuple(it.iterate(xs))
+
+        def _set(_, xs=()):
+            return set(it.iterate(xs))
+
+        def _frozenset(_, xs=()):
+            return frozenset(it.iterate(xs))
+
+        def _dict(_, *a, **k):
+            d = {}
+            if a:
+                src = a[0]
+                d.update(src if isinstance(src, dict) else dict(it.iterate(src)))
+            d.update(k)
+            return d
+
+        def _sum(_, xs, start=0):
+            return sum(it.iterate(xs), start)
+
+        def _min(_, *a, **k):
+            if 'key' in k:
+                k['key'] = it.as_host_callable(k['key'])
+            return min(*[it.iterate(x) if len(a) == 1 else x for x in a], **k)
+
+        def _max(_, *a, **k):
+            if 'key' in k:
+                k['key'] = it.as_host_callable(k['key'])
+            return max(*[it.iterate(x) if len(a) == 1 else x for x in a], **k)
+
+        def _enumerate(_, xs, start=0):
+            return enumerate(it.iterate(xs), start)
+
+        def _zip(_, *xs):
+            return zip(*[it.iterate(x) for x in xs])
+
+        def _reversed(_, xs):
+            if isinstance(xs, Obj) and '$list' in xs.attrs:
+                return reversed(xs.attrs['$list'])
+            return reversed(xs)
+
+        def _iter(_, xs):
+            return iter(it.iterate(xs))
+
+        def _next(_, i, default=_MISSING):
+            try:
+                return next(i)
+            except StopIteration:
+                if default is _MISSING:
+                    raise PyRaise(StopIteration())
+                return default
+
+        def _bool(_, x=False):
+            return it.truth(x)
+
+        def _repr(_, x):
+            return repr(x)
+
+        def _str(_, x=''):
+            return it.to_str(x)
+
+        def _print(_, *a, **k):
+            return None
+
+        def _id(_, x):
+            return id(x)
+
+        def _super(_, *a):
+            raise Unmodelled('super() outside a method')
+
+        def _hash(_, x):
+            return hash(x)
+
+        b = {'isinstance': _isinstance, 'issubclass': _issubclass, 'getattr': _getattr, 'hasattr': _hasattr, 'setattr': _setattr, 'type': _type, 'sorted': _sorted, 'map': _map,
+             'filter': _filter, 'any': _any, 'all': _all, 'len': _len, 'list': _list, 'tuple': _tuple, 'set': _set, 'frozenset': _frozenset, 'dict': _dict, 'sum': _sum, 'min': _min,
+             'max': _max, 'enumerate': _enumerate, 'zip': _zip, 'reversed': _reversed, 'iter': _iter, 'next': _next, 'bool': _bool, 'repr': _repr, 'str': _str, 'print': _print, 'id': _id,
+             'hash': _hash}
+        out = {k: HostFn(v, k) for k, v in b.items()}
+        out.update({'int': int, 'float': float, 'bytes': bytes, 'object': object, 'range': range, 'abs': HostFn(lambda _, x: abs(x), 'abs'), 'ord': HostFn(lambda _, x: ord(x), 'ord'),
+                    'chr': HostFn(lambda _, x: chr(x), 'chr'), 'divmod': HostFn(lambda _, a, b: divmod(a, b), 'divmod'), 'True': True, 'False': False, 'None': None,
+                    'NotImplemented': NotImplemented, 'Ellipsis': Ellipsis, 'slice': slice, 'callable': HostFn(lambda _, x: isinstance(x, (Func, BoundMethod, HostFn, ClassVal, StubClass)), 'callable')})
+        # host classes that isinstance()/type() comparisons refer to keep their identity
+        self.type_aliases = {'list': list, 'tuple': tuple, 'dict': dict, 'set': set, 'frozenset': frozenset, 'str': str, 'bool': bool}
+        out.update(_HOST_EXC)
+        return out
+
+    # ------------------------------------------------------------------------------------------------ protocol helpers
+    def tick(self):
+        self.steps += 1
+        if self.steps > self.max_steps:
+            raise Unmodelled('step budget exceeded (%d interpreted nodes): non-terminating or too large' % self.max_steps)
+
+    def isinstance(self, v, c):
+        if isinstance(c, tuple):
+            return any(self.isinstance(v, x) for x in c)
+        if isinstance(c, HostFn) and c.name in self.type_aliases:
+            c = self.type_aliases[c.name]
+        if isinstance(c, (ClassVal, StubClass)):
+            if not isinstance(v, Obj):
+                return False
+            if v.cls is c:
+                return True
+            if c.name not in self.mro_names(v.cls):
+                return False
+            return any(k is c for k in self.mro(v.cls))
+        if isinstance(c, type):
+            if isinstance(v, Obj):
+                if c is object:
+                    return True
+                if c is list and '$list' in v.attrs:
+                    return True
+                return False
+            if isinstance(v, (ClassVal, StubClass, Func, BoundMethod, HostFn, ModuleVal)):
+                return c is object
+            return isinstance(v, c)
+        raise Unmodelled('isinstance() against %r' % (c,))
+
+    def truth(self, v):
+        if isinstance(v, Obj):
+            if '$list' in v.attrs:
+                return bool(v.attrs['$list'])
+            for name in ('__bool__', '__len__'):
+                m = self.find_in_class(v.cls, name)
+                if m is not None:
+                    return bool(self.call(self.bind(m, v), [], {}))
+            return True
+        if isinstance(v, (ClassVal, StubClass, Func, BoundMethod, HostFn, ModuleVal, StubModule)):
+            return True
+        if isinstance(v, _HOST_TYPES) or isinstance(v, type):
+            return bool(v)
+        if v is NotImplemented:
+            return True
+        raise Unmodelled('truth value of %r' % (v,))
+
+    def iterate(self, v):
+        if isinstance(v, Obj):
+            if '$list' in v.attrs:
+                return v.attrs['$list']
+            m = self.find_in_class(v.cls, '__iter__')
+            if m is not None:
+                return self.iterate(self.call(self.bind(m, v), [], {}))
+            raise Unmodelled('iteration over %r' % (v,))
+        if isinstance(v, _HOST_TYPES):
+            return v
+        raise Unmodelled('iteration over %r' % (v,))
+
+    def length(self, v):
+        if isinstance(v, Obj):
+            if '$list' in v.attrs:
+                return len(v.attrs['$list'])
+            m = self.find_in_class(v.cls, '__len__')
+            if m is not None:
+                return self.call(self.bind(m, v), [], {})
+            raise Unmodelled('len() of %r' % (v,))
+        return len(v)
+
+    def to_str(self, v):
+        if isinstance(v, Obj):
+            m = self.find_in_class(v.cls, '__str__')
+            if m is not None:
+                return self.call(self.bind(m, v), [], {})
+            return '<%s>' % v.cls.name
+        if isinstance(v, (ClassVal, StubClass)):
+            return "<class '%s'>" % v.name
+        return str(v)
+
+    def as_host_callable(self, f):
+        if f is None:
+            return None
+        return lambda *a, **k: self.call(f, list(a), k)
+
+    # ---- attribute lookup
+    def find_in_class(self, c, name):
+        """-> ('func', Func) | ('value', v) | ('host', callable) looked up along the MRO, or None"""
+        key = (id(c), name)
+        if key in self._fc:
+            return self._fc[key]
+        r = self._fc[key] = self._find_in_class(c, name)
+        return r
+
+    def _find_in_class(self, c, name):
+        names = self.mro_names(c)
+        for (fam, meth), fn in self.family_overrides.items():
+            if meth == name and fam in names:
+                return ('host', fn)
+        for k in self.mro(c):
+            if isinstance(k, StubClass):
+                if name in k.methods:
+                    return ('host', k.methods[name])
+                if name in k.attrs:
+                    return ('value', k.attrs[name])
+                continue
+            ci = k.ci
+            fn = ci.methods.get(name)
+            if fn is not None:
+                kind = 'function'
+                for d in fn.decorator_list:
+                    dn = d.id if isinstance(d, _ast.Name) else d.attr if isinstance(d, _ast.Attribute) else None
+                    if dn in ('classmethod', 'staticmethod', 'property'):
+                        kind = dn
+                return ('func', Func(fn, None, ci.module, owner=k, kind=kind))
+            if name in ci.attrs:
+                ck = ('attr', name)
+                if ck not in k.cache:
+                    node = ci.attrs[name]
+                    if node is True:
+                        continue
+                    if isinstance(node, _ast.ClassDef):
+                        val = None
+                        for cc in self.ix.classes_by_name[node.name]:
+                            if cc.node is node:
+                                val = self.classval(cc)
+                        k.cache[ck] = val
+                    else:
+                        env = Env(self.module_env(ci.module))
+                        # earlier class-level names are visible in class-level expressions
+                        env.vars = _ClassNS(self, k)
+                        k.cache[ck] = self.eval(node, env)
+                return ('value', k.cache[ck])
+        return None
+
+    def bind(self, found, obj):
+        kind, v = found
+        if kind == 'value':
+            if isinstance(v, Func) and v.kind == 'function' and v.owner is None and not isinstance(v.node, _ast.Lambda):
+                return BoundMethod(v, obj)
+            return v
+        if kind == 'host':
+            return HostFn(lambda it, *a, **k: v(it, obj, *a, **k), getattr(v, '__name__', 'stub'))
+        f = v
+        if f.kind == 'staticmethod':
+            return f
+        if f.kind == 'classmethod':
+            return BoundMethod(f, obj.cls if isinstance(obj, Obj) else obj)
+        if f.kind == 'property':
+            return self.call(BoundMethod(f, obj), [], {})
+        return BoundMethod(f, obj)
+
+    def getattr(self, o, name):
+        if isinstance(o, Obj):
+            a = o.attrs
+            if name in a:
+                return a[name]
+            if name == '__dict__':
+                return a
+            if name == '__class__':
+                return o.cls
+            found = self.find_in_class(o.cls, name)
+            if found is None:
+                if '$list' in a and hasattr(a['$list'], name):
+                    return getattr(a['$list'], name)
+                if isinstance(o.cls, StubClass) and o.cls.default is not None:
+                    try:
+                        return o.cls.default(o, name)
+                    except AttributeError:
+                        pass
+                raise PyRaise(AttributeError('%s object has no attribute %r' % (o.cls.name, name)))
+            return self.bind(found, o)
+        if isinstance(o, SuperProxy):
+            return self.super_getattr(o, name)
+        if isinstance(o, (ClassVal, StubClass)):
+            if name == '__name__':
+                return o.name
+            if name == '__mro__':
+                return tuple(self.mro(o))
+            found = self.find_in_class(o, name)
+            if found is None:
+                raise PyRaise(AttributeError('class %s has no attribute %r' % (o.name, name)))
+            kind, v = found
+            if kind == 'func':
+                if v.kind == 'classmethod':
+                    return BoundMethod(v, o)
+                return v
+            if kind == 'host':
+                return HostFn(lambda it, self_, *a, **k: v(it, self_, *a, **k), name)
+            return v
+        if isinstance(o, ModuleVal):
+            v = self.module_global(o.module, name)
+            if v is _MISSING:
+                raise Unmodelled('module attribute %s.%s' % (o.module.short, name))
+            return v
+        if isinstance(o, StubModule):
+            if name in o.names:
+                return o.names[name]
+            raise Unmodelled('module attribute %s.%s' % (o.name, name))
+        if isinstance(o, Func):
+            if name == '__name__':
+                return o.name
+            raise Unmodelled('attribute %s of a function' % name)
+        if isinstance(o, BoundMethod) and name == '__self__':
+            return o.self
+        if isinstance(o, _HOST_TYPES) or isinstance(o, BaseException):
+            if name.startswith('__') and name not in ('__class__', '__len__', '__name__'):
+                raise Unmodelled('dunder attribute %s of a builtin value' % name)
+            try:
+                return getattr(o, name)
+            except AttributeError as e:
+                raise PyRaise(e)
+        if isinstance(o, type):
+            try:
+                return getattr(o, name)
+            except AttributeError as e:
+                raise PyRaise(e)
+        raise Unmodelled('attribute %r of %r' % (name, o))
+
+    def super_getattr(self, sp, name):
+        obj = sp.obj
+        cls = obj.cls if isinstance(obj, Obj) else obj
+        mro = self.mro(cls)
+        idx = next(i for i, k in enumerate(mro) if k is sp.after)
+        for k in mro[idx + 1:]:
+            if isinstance(k, StubClass):
+                if name in k.methods:
+                    fn = k.methods[name]
+                    return HostFn(lambda it, *a, **kw: fn(it, obj, *a, **kw), name)
+                continue
+            fn = k.ci.methods.get(name)
+            if fn is not None:
+                return BoundMethod(Func(fn, None, k.ci.module, owner=k), obj)
+        # builtin bases
+        names = self.mro_names(cls)
+        if name == '__init__':
+            if 'list' in names:
+                def init_list(it, xs=()):
+                    obj.attrs['$list'] = list(it.iterate(xs))
+                return HostFn(init_list, 'list.__init__')
+            return HostFn(lambda it, *a, **k: None, 'object.__init__')
+        raise Unmodelled('super().%s beyond the analysed classes' % name)
+
+    def setattr(self, o, name, v):
+        if isinstance(o, Obj):
+            o.attrs[name] = v
+            return
+        if isinstance(o, (ClassVal,)):
+            o.cache[('attr', name)] = v
+            o.ci.attrs.setdefault(name, True)
+            raise Unmodelled('assignment to a class attribute %s.%s' % (o.name, name))
+        raise Unmodelled('attribute assignment on %r' % (o,))
+
+    # ------------------------------------------------------------------------------------------------ calls
+    def instantiate(self, c, args, kwargs):
+        obj = Obj(c)
+        if 'list' in self.mro_names(c):
+            obj.attrs['$list'] = []
+        init = self.find_in_class(c, '__init__')
+        if init is not None:
+            self.call(self.bind(init, obj), args, kwargs)
+        elif args or kwargs:
+            raise PyRaise(TypeError('%s() takes no arguments' % c.name))
+        return obj
+
+    def call(self, f, args, kwargs):
+        self.tick()
+        if isinstance(f, HostFn):
+            return f.fn(self, *args, **kwargs)
+        if isinstance(f, BoundMethod):
+            return self.call_func(f.func, [f.self] + list(args), kwargs)
+        if isinstance(f, Func):
+            return self.call_func(f, list(args), kwargs)
+        if isinstance(f, (ClassVal, StubClass)):
+            return self.instantiate(f, args, kwargs)
+        if isinstance(f, Obj):
+            m = self.find_in_class(f.cls, '__call__')
+            if m is not None:
+                return self.call(self.bind(m, f), args, kwargs)
+            raise Unmodelled('call of %r' % (f,))
+        if isinstance(f, type):
+            if issubclass(f, BaseException):
+                return f(*args)
+            if f in (int, float, bytes, str, bool, range, slice, object):
+                return f(*args, **kwargs)
+            if f in (list, tuple, set, frozenset, dict):
+                return self.builtins[f.__name__].fn(self, *args, **kwargs)
+            raise Unmodelled('call of host type %r' % (f,))
+        if callable(f) and (type(f).__name__ in ('builtin_function_or_method', 'method_descriptor', 'method-wrapper', 'wrapper_descriptor')):
+            # bound methods of host containers/strings (list.append, dict.get, str.join ...)
+            nm = getattr(f, '__name__', '')
+            if nm == 'sort' and 'key' in kwargs:
+                kwargs = dict(kwargs, key=self.as_host_callable(kwargs['key']))
+            if nm in ('join', 'extend', 'update', 'union', 'intersection', 'difference', 'difference_update', 'intersection_update', 'issubset', 'issuperset', 'symmetric_difference') and args:
+                args = [self.iterate(a) if not isinstance(a, (dict,)) else a for a in args]
+            try:
+                return f(*args, **kwargs)
+            except (KeyError, IndexError, ValueError, TypeError, AttributeError, StopIteration) as e:
+                raise PyRaise(e)
+        raise Unmodelled('call of %r' % (f,))
+
+    def call_func(self, f, args, kwargs):
+        node = f.node
+        self.call_depth += 1
+        self.fstack.append(f.name)
+        if self.call_depth > 150:
+            self.call_depth -= 1
+            self.fstack.pop()
+            raise Unmodelled('recursion too deep')
+        try:
+            def_env = f.env if f.env is not None else self.module_env(f.module)
+            env = Env(def_env)
+            sig = self._sigs.get(id(node))
+            if sig is None:
+                a = node.args
+                sig = self._sigs[id(node)] = ([p.arg for p in a.posonlyargs + a.args], a.defaults, a.vararg.arg if a.vararg else None,
+                                              [(p.arg, d) for p, d in zip(a.kwonlyargs, a.kw_defaults)], a.kwarg.arg if a.kwarg else None)
+            params, defaults, vararg, kwonly, kwarg = sig
+            vars_ = env.vars
+            nargs, nparams = len(args), len(params)
+            if nargs > nparams:
+                if vararg is None:
+                    raise PyRaise(TypeError('%s() takes %d positional arguments but %d were given' % (f.name, nparams, nargs)))
+                vars_[vararg] = tuple(args[nparams:])
+                args = args[:nparams]
+                nargs = nparams
+            elif vararg is not None:
+                vars_[vararg] = ()
+            for i in range(nargs):
+                vars_[params[i]] = args[i]
+            if nargs == nparams and not kwargs and not kwonly and kwarg is None:
+                pass                                    # the common case: all parameters given positionally
+            else:
+                kw = dict(kwargs)
+                nd = len(defaults)
+                for i in range(nargs, nparams):
+                    p = params[i]
+                    if p in kw:
+                        vars_[p] = kw.pop(p)
+                    else:
+                        di = i - (nparams - nd)
+                        if di < 0:
+                            raise PyRaise(TypeError('%s() missing required argument %r' % (f.name, p)))
+                        vars_[p] = self.eval(defaults[di], def_env)
+                if kw:
+                    for p in params[:nargs]:
+                        if p in kw:
+                            raise PyRaise(TypeError('%s() got multiple values for argument %r' % (f.name, p)))
+                for p, d in kwonly:
+                    if p in kw:
+                        vars_[p] = kw.pop(p)
+                    elif d is not None:
+                        vars_[p] = self.eval(d, def_env)
+                    else:
+                        raise PyRaise(TypeError('%s() missing keyword-only argument %r' % (f.name, p)))
+                if kwarg is not None:
+                    vars_[kwarg] = kw
+                elif kw:
+                    raise PyRaise(TypeError('%s() got an unexpected keyword argument %r' % (f.name, sorted(kw)[0])))
+            if f.owner is not None:
+                vars_['$owner'] = f.owner
+                if params:
+                    vars_['$self'] = vars_[params[0]]
+            if isinstance(node, _ast.Lambda):
+                return self.eval(node.body, env)
+            r = self.exec_block(node.body, env)
+            if r is None:
+                return None
+            if r.__class__ is _Return:
+                return r.value
+            raise Unmodelled('break / continue outside a loop')
+        except (Unmodelled, PyRaise) as e:
+            if not getattr(e, 'where', None):
+                e.where = ' > '.join(self.fstack[-4:])
+            raise
+        finally:
+            self.call_depth -= 1
+            self.fstack.pop()
+
+    # ------------------------------------------------------------------------------------------------ statements
+    def exec_block(self, stmts, env):
+        """-> None when the block falls through, else the pending jump: _BREAK, _CONTINUE or a _Return instance"""
+        for s in stmts:
+            r = self.exec(s, env)
+            if r is not None:
+                return r
+        return None
+
+    def exec(self, s, env):
+        self.steps += 1
+        m = self._xd.get(type(s))
+        if m is None:
+            m = getattr(self, 'x_' + type(s).__name__, None)
+            if m is None:
+                raise Unmodelled('statement %s (line %s)' % (type(s).__name__, getattr(s, 'lineno', '?')))
+            self._xd[type(s)] = m
+        return m(s, env)
+
+    def x_Expr(self, s, env):
+        self.eval(s.value, env)
+
+    def x_Pass(self, s, env):
+        pass
+
+    def x_Return(self, s, env):
+        return _Return(self.eval(s.value, env) if s.value is not None else None)
+
+    def x_Break(self, s, env):
+        return _BREAK
+
+    def x_Continue(self, s, env):
+        return _CONTINUE
+
+    def x_Global(self, s, env):
+        raise Unmodelled('global statement')
+
+    def x_Nonlocal(self, s, env):
+        if env.nonlocals is None:
+            env.nonlocals = set()
+        env.nonlocals.update(s.names)
+
+    def x_Assert(self, s, env):
+        if not self.truth(self.eval(s.test, env)):
+            raise PyRaise(AssertionError(self.to_str(self.eval(s.msg, env)) if s.msg is not None else ''))
+
+    def x_Import(self, s, env):
+        for a in s.names:
+            if a.name in self.ix.modules:
+                v = self.modval(self.ix.modules[a.name])
+            else:
+                v = self.external(('extmodule', a.name))
+                if v is _MISSING:
+                    raise Unmodelled('import %s' % a.name)
+            self.store_name(a.asname or a.name.split('.')[0], v, env)
+
+    def x_ImportFrom(self, s, env):
+        m = self._module_of(env)
+        table = {}
+        # resolve relative to the module the function is defined in
+        pkg = m.name.rsplit('.', 1)[0] if '.' in m.name else ''
+        base = s.module or ''
+        if s.level:
+            parts = pkg.split('.') if pkg else []
+            if s.level > 1:
+                parts = parts[:len(parts) - (s.level - 1)]
+            rb = '.'.join(parts)
+            base = (rb + '.' + base) if base and rb else (rb or base)
+        for a in s.names:
+            local = a.asname or a.name
+            full = (base + '.' + a.name) if base else a.name
+            if full in self.ix.modules:
+                self.store_name(local, self.modval(self.ix.modules[full]), env)
+            elif base in self.ix.modules:
+                v = self.module_global(self.ix.modules[base], a.name)
+                if v is _MISSING:
+                    raise Unmodelled('from %s import %s' % (base, a.name))
+                self.store_name(local, v, env)
+            else:
+                v = self.external(('extsymbol', base, a.name))
+                if v is _MISSING:
+                    raise Unmodelled('from %s import %s' % (base, a.name))
+                self.store_name(local, v, env)
+
+    def _module_of(self, env):
+        e = env
+        while e is not None:
+            if e.globals_ is not None:
+                return e.globals_
+            e = e.parent
+        raise Unmodelled('no module for this scope')
+
+    def x_FunctionDef(self, s, env):
+        self.store_name(s.name, Func(s, env, self._module_of(env)), env)
+
+    def x_If(self, s, env):
+        if self.truth(self.eval(s.test, env)):
+            return self.exec_block(s.body, env)
+        return self.exec_block(s.orelse, env)
+
+    def x_While(self, s, env):
+        while self.truth(self.eval(s.test, env)):
+            self.tick()
+            r = self.exec_block(s.body, env)
+            if r is _BREAK:
+                return None
+            if r is not None and r is not _CONTINUE:
+                return r
+        return self.exec_block(s.orelse, env)
+
+    def x_For(self, s, env):
+        for v in self.iterate(self.eval(s.iter, env)):
+            self.tick()
+            self.assign(s.target, v, env)
+            r = self.exec_block(s.body, env)
+            if r is _BREAK:
+                return None
+            if r is not None and r is not _CONTINUE:
+                return r
+        return self.exec_block(s.orelse, env)
+
+    def x_Try(self, s, env):
+        pending = None
+        try:
+            try:
+                pending = self.exec_block(s.body, env)
+            except PyRaise as e:
+                for h in s.handlers:
+                    if h.type is None or self.exc_matches(e.value, self.eval(h.type, env)):
+                        if h.name:
+                            self.store_name(h.name, e.value, env)
+                        pending = self.exec_block(h.body, env)
+                        break
+                else:
+                    raise
+            else:
+                if pending is None:
+                    pending = self.exec_block(s.orelse, env)
+        finally:
+            r = self.exec_block(s.finalbody, env)
+            if r is not None:
+                return r            # a jump in the finally clause replaces the pending one (and swallows a pending exception)
+        return pending
+
+    def exc_matches(self, val, c):
+        if isinstance(c, tuple):
+            return any(self.exc_matches(val, x) for x in c)
+        if isinstance(c, type):
+            return isinstance(val, c)
+        if isinstance(c, (ClassVal, StubClass)):
+            return isinstance(val, Obj) and self.isinstance(val, c)
+        raise Unmodelled('except clause type %r' % (c,))
+
+    def x_Raise(self, s, env):
+        if s.exc is None:
+            raise Unmodelled('bare raise')
+        v = self.eval(s.exc, env)
+        if isinstance(v, (ClassVal, StubClass)) or (isinstance(v, type) and issubclass(v, BaseException)):
+            v = self.call(v, [], {})
+        raise PyRaise(v)
+
+    def x_With(self, s, env):
+        raise Unmodelled('with statement')
+
+    def x_Delete(self, s, env):
+        for t in s.targets:
+            if isinstance(t, _ast.Subscript):
+                o = self.eval(t.value, env)
+                k = self.eval_index(t.slice, env)
+                if isinstance(o, Obj) and '$list' in o.attrs:
+                    o = o.attrs['$list']
+                try:
+                    del o[k]
+                except (KeyError, IndexError) as e:
+                    raise PyRaise(e)
+            elif isinstance(t, _ast.Name):
+                d = env.lookup(t.id)
+                if d is None:
+                    raise PyRaise(NameError(t.id))
+                del d[t.id]
+            elif isinstance(t, _ast.Attribute):
+                o = self.eval(t.value, env)
+                if isinstance(o, Obj) and t.attr in o.attrs:
+                    del o.attrs[t.attr]
+                else:
+                    raise PyRaise(AttributeError(t.attr))
+            else:
+                raise Unmodelled('del target')
+
+    def x_Assign(self, s, env):
+        v = self.eval(s.value, env)
+        for t in s.targets:
+            self.assign(t, v, env)
+
+    def x_AnnAssign(self, s, env):
+        if s.value is not None:
+            self.assign(s.target, self.eval(s.value, env), env)
+
+    def x_AugAssign(self, s, env):
+        t = s.target
+        if isinstance(t, _ast.Name):
+            cur = self.load_name(t.id, env)
+            self.store_name(t.id, self.binop(s.op, cur, self.eval(s.value, env), inplace=True), env)
+        elif isinstance(t, _ast.Attribute):
+            o = self.eval(t.value, env)
+            cur = self.getattr(o, t.attr)
+            self.setattr(o, t.attr, self.binop(s.op, cur, self.eval(s.value, env), inplace=True))
+        elif isinstance(t, _ast.Subscript):
+            o = self.eval(t.value, env)
+            k = self.eval_index(t.slice, env)
+            cur = self.getitem(o, k)
+            self.setitem(o, k, self.binop(s.op, cur, self.eval(s.value, env), inplace=True))
+        else:
+            raise Unmodelled('augmented assignment target')
+
+    def store_name(self, name, v, env):
+        if env.nonlocals and name in env.nonlocals:
+            d = env.parent.lookup(name) if env.parent is not None else None
+            if d is None:
+                raise Unmodelled('nonlocal %s not found' % name)
+            d[name] = v
+            return
+        if env.globals_ is not None and env.parent is None:
+            raise Unmodelled('assignment to the module-level name %s' % name)
+        env.vars[name] = v
+
+    def load_name(self, name, env):
+        d = env.lookup(name)
+        if d is not None:
+            return d[name]
+        m = self._module_of(env)
+        v = self.module_global(m, name)
+        if v is not _MISSING:
+            return v
+        if name in self.builtins:
+            return self.builtins[name]
+        raise PyRaise(NameError("name %r is not defined (module %s)" % (name, m.short)))
+
+    def assign(self, t, v, env):
+        if isinstance(t, _ast.Name):
+            self.store_name(t.id, v, env)
+        elif isinstance(t, _ast.Attribute):
+            self.setattr(self.eval(t.value, env), t.attr, v)
+        elif isinstance(t, _ast.Subscript):
+            self.setitem(self.eval(t.value, env), self.eval_index(t.slice, env), v)
+        elif isinstance(t, (_ast.Tuple, _ast.List)):
+            vals = list(self.iterate(v))
+            star = [i for i, e in enumerate(t.elts) if isinstance(e, _ast.Starred)]
+            if star:
+                i = star[0]
+                after = len(t.elts) - i - 1
+                if len(vals) < len(t.elts) - 1:
+                    raise PyRaise(ValueError('not enough values to unpack'))
+                for e, x in zip(t.elts[:i], vals[:i]):
+                    self.assign(e, x, env)
+                self.assign(t.elts[i].value, vals[i:len(vals) - after], env)
+                for e, x in zip(t.elts[i + 1:], vals[len(vals) - after:]):
+                    self.assign(e, x, env)
+            else:
+                if len(vals) != len(t.elts):
+                    raise PyRaise(ValueError('unpack: expected %d values, got %d' % (len(t.elts), len(vals))))
+                for e, x in zip(t.elts, vals):
+                    self.assign(e, x, env)
+        else:
+            raise Unmodelled('assignment target %s' % type(t).__name__)
+
+    def getitem(self, o, k):
+        if isinstance(o, Obj):
+            if '$list' in o.attrs:
+                o = o.attrs['$list']
+            else:
+                m = self.find_in_class(o.cls, '__getitem__')
+                if m is None:
+                    raise Unmodelled('subscript of %r' % (o,))
+                return self.call(self.bind(m, o), [k], {})
+        try:
+            return o[k]
+        except (KeyError, IndexError, TypeError) as e:
+            raise PyRaise(e)
+
+    def setitem(self, o, k, v):
+        if isinstance(o, Obj):
+            if '$list' in o.attrs:
+                o = o.attrs['$list']
+            else:
+                raise Unmodelled('item assignment on %r' % (o,))
+        try:
+            o[k] = v
+        except (KeyError, IndexError, TypeError) as e:
+            raise PyRaise(e)
+
+    def eval_index(self, sl, env):
+        if isinstance(sl, _ast.Slice):
+            return slice(self.eval(sl.lower, env) if sl.lower is not None else None, self.eval(sl.upper, env) if sl.upper is not None else None,
+                         self.eval(sl.step, env) if sl.step is not None else None)
+        return self.eval(sl, env)
+
+    # ------------------------------------------------------------------------------------------------ expressions
+    def eval(self, e, env):
+        self.steps += 1
+        m = self._ed.get(type(e))
+        if m is None:
+            m = getattr(self, 'e_' + type(e).__name__, None)
+            if m is None:
+                raise Unmodelled('expression %s (line %s)' % (type(e).__name__, getattr(e, 'lineno', '?')))
+            self._ed[type(e)] = m
+        return m(e, env)
+
+    def e_Constant(self, e, env):
+        return e.value
+
+    def e_Name(self, e, env):
+        name = e.id
+        en = env
+        while en is not None:
+            v = en.vars
+            if name in v:
+                return v[name]
+            en = en.parent
+        return self.load_name(name, env)
+
+    def e_Attribute(self, e, env):
+        return self.getattr(self.eval(e.value, env), e.attr)
+
+    def e_Subscript(self, e, env):
+        return self.getitem(self.eval(e.value, env), self.eval_index(e.slice, env))
+
+    def e_Tuple(self, e, env):
+        return tuple(self.eval_seq(e.elts, env))
+
+    def e_List(self, e, env):
+        return self.eval_seq(e.elts, env)
+
+    def e_Set(self, e, env):
+        return set(self.eval_seq(e.elts, env))
+
+    def eval_seq(self, elts, env):
+        out = []
+        for x in elts:
+            if isinstance(x, _ast.Starred):
+                out.extend(self.iterate(self.eval(x.value, env)))
+            else:
+                out.append(self.eval(x, env))
+        return out
+
+    def e_Dict(self, e, env):
+        d = {}
+        for k, v in zip(e.keys, e.values):
+            if k is None:
+                d.update(self.eval(v, env))
+            else:
+                d[self.eval(k, env)] = self.eval(v, env)
+        return d
+
+    def e_JoinedStr(self, e, env):
+        out = []
+        for v in e.values:
+            if isinstance(v, _ast.Constant):
+                out.append(v.value)
+            else:
+                x = self.eval(v.value, env)
+                if v.conversion == 114:
+                    x = repr(x)
+                else:
+                    x = self.to_str(x) if not isinstance(x, (int, float, str)) or v.format_spec is None else x
+                if v.format_spec is not None:
+                    x = format(x, self.e_JoinedStr(v.format_spec, env))
+                out.append(x if isinstance(x, str) else self.to_str(x))
+        return ''.join(out)
+
+    def e_UnaryOp(self, e, env):
+        v = self.eval(e.operand, env)
+        if isinstance(e.op, _ast.Not):
+            return not self.truth(v)
+        if isinstance(e.op, _ast.USub):
+            return -v
+        if isinstance(e.op, _ast.UAdd):
+            return +v
+        if isinstance(e.op, _ast.Invert):
+            return ~v
+        raise Unmodelled('unary operator')
+
+    def e_BoolOp(self, e, env):
+        is_and = isinstance(e.op, _ast.And)
+        v = None
+        for x in e.values:
+            v = self.eval(x, env)
+            t = self.truth(v)
+            if is_and and not t:
+                return v
+            if not is_and and t:
+                return v
+        return v
+
+    def e_IfExp(self, e, env):
+        return self.eval(e.body, env) if self.truth(self.eval(e.test, env)) else self.eval(e.orelse, env)
+
+    def e_NamedExpr(self, e, env):
+        v = self.eval(e.value, env)
+        self.assign(e.target, v, env)
+        return v
+
+    def e_Lambda(self, e, env):
+        return Func(e, env, self._module_of(env))
+
+    def binop(self, op, a, b, inplace=False):
+        fn = _BINOPS.get(type(op))
+        if fn is None:
+            raise Unmodelled('binary operator %s' % type(op).__name__)
+        if isinstance(op, _ast.Mod) and isinstance(a, str):
+            return self.percent_format(a, b)
+        for x in (a, b):
+            if isinstance(x, Obj):
+                if '$list' in x.attrs:
+                    continue
+                raise Unmodelled('arithmetic on %r' % (x,))
+            if not isinstance(x, _HOST_TYPES):
+                raise Unmodelled('arithmetic on %r' % (x,))
+        if inplace and isinstance(a, (list, set, dict)):
+            if isinstance(op, _ast.Add):
+                a += b
+                return a
+            if isinstance(op, _ast.BitOr):
+                a |= b
+                return a
+            if isinstance(op, _ast.Sub):
+                a -= b
+                return a
+            if isinstance(op, _ast.BitAnd):
+                a &= b
+                return a
+        try:
+            return fn(a, b)
+        except (TypeError, ZeroDivisionError, ValueError) as e:
+            raise PyRaise(e)
+
+    def percent_format(self, fmt, args):
+        if isinstance(args, tuple):
+            args = tuple(a if isinstance(a, (int, float, str)) else self.to_str(a) for a in args)
+        elif isinstance(args, dict):
+            args = {k: (a if isinstance(a, (int, float, str)) else self.to_str(a)) for k, a in args.items()}
+        elif not isinstance(args, (int, float, str)):
+            args = self.to_str(args)
+        try:
+            return fmt % args
+        except (TypeError, ValueError) as e:
+            raise PyRaise(e)
+
+    def e_BinOp(self, e, env):
+        return self.binop(e.op, self.eval(e.left, env), self.eval(e.right, env))
+
+    def compare(self, op, a, b):
+        if isinstance(op, _ast.Is):
+            return a is b
+        if isinstance(op, _ast.IsNot):
+            return a is not b
+        if isinstance(op, (_ast.In, _ast.NotIn)):
+            r = self.contains(b, a)
+            return r if isinstance(op, _ast.In) else not r
+        if isinstance(op, (_ast.Eq, _ast.NotEq)):
+            r = self.equals(a, b)
+            return r if isinstance(op, _ast.Eq) else not r
+        for x in (a, b):
+            if isinstance(x, (Obj, ClassVal, StubClass, Func)):
+                raise Unmodelled('ordering comparison on %r' % (x,))
+        try:
+            if isinstance(op, _ast.Lt):
+                return a < b
+            if isinstance(op, _ast.LtE):
+                return a <= b
+            if isinstance(op, _ast.Gt):
+                return a > b
+            if isinstance(op, _ast.GtE):
+                return a >= b
+        except TypeError as e:
+            raise PyRaise(e)
+        raise Unmodelled('comparison operator')
+
+    def equals(self, a, b):
+        if isinstance(a, Obj) or isinstance(b, Obj):
+            for x, y in ((a, b), (b, a)):
+                if isinstance(x, Obj):
+                    m = self.find_in_class(x.cls, '__eq__')
+                    if m is not None:
+                        r = self.call(self.bind(m, x), [y], {})
+                        if r is not NotImplemented:
+                            return self.truth(r)
+            return a is b
+        return a == b
+
+    def contains(self, container, item):
+        if isinstance(container, Obj):
+            if '$list' in container.attrs:
+                container = container.attrs['$list']
+            else:
+                m = self.find_in_class(container.cls, '__contains__')
+                if m is not None:
+                    return self.truth(self.call(self.bind(m, container), [item], {}))
+                return any(self.equals(x, item) for x in self.iterate(container))
+        if isinstance(container, (list, tuple)) and isinstance(item, Obj):
+            return any(self.equals(x, item) for x in container)
+        try:
+            return item in container
+        except TypeError as e:
+            raise PyRaise(e)
+
+    def e_Compare(self, e, env):
+        left = self.eval(e.left, env)
+        for op, r in zip(e.ops, e.comparators):
+            right = self.eval(r, env)
+            if not self.compare(op, left, right):
+                return False
+            left = right
+        return True
+
+    def e_Call(self, e, env):
+        if isinstance(e.func, _ast.Name) and e.func.id == 'super' and env.lookup('super') is None:
+            d = env.lookup('$owner')
+            if d is None:
+                raise Unmodelled('super() outside a method')
+            if e.args:
+                raise Unmodelled('super() with arguments')
+            return SuperProxy(env.lookup('$self')['$self'], d['$owner'])
+        f = self.eval(e.func, env)
+        args = []
+        for a in e.args:
+            if isinstance(a, _ast.Starred):
+                args.extend(self.iterate(self.eval(a.value, env)))
+            else:
+                args.append(self.eval(a, env))
+        kwargs = {}
+        for k in e.keywords:
+            if k.arg is None:
+                kwargs.update(self.eval(k.value, env))
+            else:
+                kwargs[k.arg] = self.eval(k.value, env)
+        return self.call(f, args, kwargs)
+
+    def _comp(self, gens, env, emit):
+        def rec(i, env2):
+            if i == len(gens):
+                emit(env2)
+                return
+            g = gens[i]
+            for v in self.iterate(self.eval(g.iter, env2)):
+                self.tick()
+                self.assign(g.target, v, env2)
+                if all(self.truth(self.eval(c, env2)) for c in g.ifs):
+                    rec(i + 1, env2)
+        rec(0, Env(env))
+
+    def e_ListComp(self, e, env):
+        out = []
+        self._comp(e.generators, env, lambda en: out.append(self.eval(e.elt, en)))
+        return out
+
+    def e_GeneratorExp(self, e, env):
+        return iter(self.e_ListComp(e, env))
+
+    def e_SetComp(self, e, env):
+        return set(self.e_ListComp(e, env))
+
+    def e_DictComp(self, e, env):
+        out = {}
+
+        def emit(en):
+            k = self.eval(e.key, en)
+            out[k] = self.eval(e.value, en)
+        self._comp(e.generators, env, emit)
+        return out
+
+    def e_Starred(self, e, env):
+        raise Unmodelled('starred expression outside a call/display')
+
+
+class _ClassNS(dict):
+    """name space for class-level expressions: earlier class attributes of the same class resolve first"""
+
+    def __init__(self, it, k):
+        dict.__init__(self)
+        self.it, self.k = it, k
+
+    def __contains__(self, name):
+        return isinstance(self.k, ClassVal) and name in self.k.ci.attrs and self.k.ci.attrs[name] is not True and ('attr', name) in self.k.cache or \
+            (isinstance(self.k, ClassVal) and name in self.k.ci.attrs and not isinstance(self.k.ci.attrs[name], bool))
+
+    def __getitem__(self, name):
+        found = self.it.find_in_class(self.k, name)
+        if found is None or found[0] != 'value':
+            raise KeyError(name)
+        return found[1]
+
+
+# ================================================================================================================ C21-CFG
+# The definedness analysis of FlowControl.py, decided end to end on a finite family of abstract programs.
+#
+# For each member of the family (one compound statement kind, its child blocks filled with every behaviour class a handler can
+# observe: falls through / jumps (break, continue, return, raise), binds / unbinds / reads the variable, may raise in between) the
+# *source* of ControlFlowAnalysis.visit_FuncDefNode -> the visit_* handlers -> ControlFlow.nextblock/newblock/... -> check_definitions
+# (initialize, reaching_definitions, map_one, the block walk, the cf_* hints) is interpreted by MiniPy on a tree the checker builds from
+# the repository's own node classes (their child_attrs and class flags are read from the source).  The resulting cf_maybe_null /
+# cf_is_null of every name node is compared with the collecting semantics of the same abstract program, computed by the checker from
+# the language reference (every condition, iteration count and raising point nondeterministic):
+#     the name can be unbound when control reaches the node   =>  cf_maybe_null (or cf_is_null) must be set   [else: no run-time check, NULL is read / Py_DECREF(NULL)]
+#     the name can be bound when control reaches the node     =>  cf_is_null must not be set                  [else: `del x` does not unbind, old value leaked]
+# Over-approximation by the analysis (a flag set although no execution needs it) is never reported.
+U, A = 'U', 'A'
+JUMPS = ('break', 'continue', 'return', 'raise')
+
+
+def visitor_overrides():
+    """TreeVisitor's dispatch machinery (dispatch table keyed by type(), access path bookkeeping, error wrapping) is replaced by its contract:
+    _visit(node) calls visit_<ClassName> for the first class of the node's MRO that has a handler; visitchildren visits child_attrs in order."""
+    def _visit(it, self, node):
+        if node is None:
+            return None
+        if not isinstance(node, Obj):
+            raise Unmodelled('visit of %r' % (node,))
+        for k in it.mro(node.cls):
+            found = it.find_in_class(self.cls, 'visit_' + k.name)
+            if found is not None:
+                return it.call(it.bind(found, self), [node], {})
+        raise Unmodelled('no visit_ handler for %s' % node.cls.name)
+
+    def _visitchildren(it, self, parent, attrs=None, exclude=None):
+        result = {}
+        for attr in (it.getattr(parent, 'child_attrs') or ()):
+            if attrs is not None and attr not in attrs:
+                continue
+            if exclude is not None and attr in exclude:
+                continue
+            child = it.getattr(parent, attr)
+            if child is None:
+                continue
+            if isinstance(child, list):
+                result[attr] = [_visit(it, self, c) for c in list(child)]
+            else:
+                result[attr] = _visit(it, self, child)
+        return result
+
+    def visitchildren(it, self, parent, attrs=None, exclude=None):
+        result = _visitchildren(it, self, parent, attrs, exclude)
+        if 'VisitorTransform' in it.mro_names(self.cls):
+            # a transform puts the returned nodes in place of the visited ones (lists are flattened, None is dropped)
+            for attr, new in result.items():
+                if isinstance(new, list):
+                    flat = []
+                    for x in new:
+                        if isinstance(x, list):
+                            flat.extend(x)
+                        elif x is not None:
+                            flat.append(x)
+                    new = flat
+                it.setattr(parent, attr, new)
+        return result
+
+    def visitchild(it, self, parent, attr, idx=0):
+        child = it.getattr(parent, attr)
+        if child is None:
+            return None
+        r = _visit(it, self, child)
+        it.setattr(parent, attr, r)
+        return r
+    return {('TreeVisitor', '_visit'): _visit, ('TreeVisitor', 'visit'): _visit, ('TreeVisitor', 'visitchildren'): visitchildren,
+            ('TreeVisitor', '_visitchildren'): _visitchildren, ('TreeVisitor', '_process_children'): visitchildren, ('TreeVisitor', 'visitchild'): visitchild}
+
+
+class CfgWorld:
+    """interpreter + stub symbol table entries for the scenario programs"""
+
+    def __init__(self, ix):
+        self.messages = []
+
+        def error(it, pos, msg):
+            self.messages.append(('error', msg))
+
+        def warning(it, pos, msg, level=1):
+            self.messages.append(('warning', msg))
+        rep = {'error': HostFn(error, 'error'), 'warning': HostFn(warning, 'warning')}
+        self.it = MiniPy(ix, stub_modules={'Errors': rep, 'FlowControl': rep}, family_overrides=visitor_overrides())
+        self.TypeStub = StubClass('TypeStub', attrs=dict(is_pyobject=True, is_struct_or_union=False, is_complex=False, is_array=False, is_cython_lock_type=False, is_cpp_class=False,
+                                                         is_unspecified=False, is_error=False, is_memoryviewslice=False, is_numeric=False))
+        self.ScopeStub = StubClass('ScopeStub', attrs=dict(scope_predefined_names=[], is_closure_scope=False))
+        self.EntryStub = StubClass('EntryStub', attrs=dict(is_anonymous=False, is_local=True, is_pyclass_attr=False, is_arg=False, from_closure=False, in_closure=False,
+                                                           error_on_uninitialized=False, is_variable=True, is_cpp_optional=False, is_builtin=False))
+        self.pytype = Obj(self.TypeStub)
+        self.pos = ('scenario.py', 1, 0)
+
+    def node(self, mod_, cls_, **attrs):
+        attrs.setdefault('pos', self.pos)
+        return Obj(self.it.cls(mod_, cls_), attrs)
+
+    # ---- scenario program (tuples) -> tree of the repository's node classes
+    def build(self, prog, entries):
+        obs = {}
+        w = self
+
+        def name(var):
+            return w.node('ExprNodes', 'NameNode', name=var, entry=entries[var], cf_state=None)
+
+        def opaque(tag='f()'):
+            # an opaque, possibly raising expression that mentions no local name (visited through visit_Node: no children)
+            return w.node('ExprNodes', 'NullNode', **{'$tag': tag})
+
+        def expr(e):
+            k = e[0]
+            if k == 'c':
+                return opaque('c')
+            if k == 'W':        # (x := f())
+                n = name(e[1])
+                obs[e[2]] = ('A', n)
+                asg = w.node('Nodes', 'SingleAssignmentNode', lhs=n, rhs=opaque(), is_assignment_expression=True)
+                return w.node('ExprNodes', 'AssignmentExpressionNode', rhs=None, assignment=asg)
+            if k == 'N':        # x
+                n = name(e[1])
+                obs[e[2]] = ('R', n)
+                return n
+            if k in ('and', 'or'):
+                return w.node('ExprNodes', 'BoolBinopNode', operator=k, operand1=expr(e[1]), operand2=expr(e[2]))
+            if k == 'cond':
+                return w.node('ExprNodes', 'CondExprNode', condition=expr(e[1]), true_val=expr(e[2]), false_val=expr(e[3]))
+            raise ValueError(k)
+
+        def retag(block):
+            out = []
+            for t in block:
+                if t[0] in ('A', 'D', 'R'):
+                    out.append((t[0], t[1], ('x', t[2])))
+                elif t[0] in ('pass', 'C') + JUMPS:
+                    out.append(t)
+                else:
+                    raise ValueError('compound statement inside a finally clause is outside the scenario family')
+            return out
+
+        def stmts(block):
+            return w.node('Nodes', 'StatListNode', stats=[stmt(s) for s in block])
+
+        def opt(block):
+            return stmts(block) if block is not None else None
+
+        def stmt(s):
+            k = s[0]
+            if k == 'A':       # x = f()
+                n = name(s[1])
+                obs[s[2]] = ('A', n)
+                return w.node('Nodes', 'SingleAssignmentNode', lhs=n, rhs=opaque())
+            if k == 'D':       # del x
+                n = name(s[1])
+                obs[s[2]] = ('D', n)
+                return w.node('Nodes', 'DelStatNode', args=[n], ignore_nonexisting=False)
+            if k == 'R':       # use(x)
+                n = name(s[1])
+                obs[s[2]] = ('R', n)
+                return w.node('Nodes', 'ExprStatNode', expr=n)
+            if k == 'C':       # f()
+                return w.node('Nodes', 'ExprStatNode', expr=opaque())
+            if k == 'E':       # expression statement
+                return w.node('Nodes', 'ExprStatNode', expr=expr(s[1]))
+            if k == 'pass':
+                return w.node('Nodes', 'PassStatNode')
+            if k == 'break':
+                return w.node('Nodes', 'BreakStatNode')
+            if k == 'continue':
+                return w.node('Nodes', 'ContinueStatNode')
+            if k == 'return':
+                return w.node('Nodes', 'ReturnStatNode', value=None)
+            if k == 'raise':
+                return w.node('Nodes', 'RaiseStatNode', exc_type=opaque(), exc_value=None, exc_tb=None, cause=None)
+            if k == 'if':      # ('if', [body, ...], else|None)
+                clauses = [w.node('Nodes', 'IfClauseNode', condition=opaque('c'), body=stmts(b)) for b in s[1]]
+                return w.node('Nodes', 'IfStatNode', if_clauses=clauses, else_clause=opt(s[2]))
+            if k == 'while':   # ('while', body, else|None)
+                return w.node('Nodes', 'WhileStatNode', condition=opaque('c'), body=stmts(s[1]), else_clause=opt(s[2]))
+            if k == 'for':     # ('for', target, obs id, body, else|None)
+                tn = name(s[1])
+                obs[s[2]] = ('A', tn)
+                it_node = w.node('ExprNodes', 'IteratorNode', sequence=opaque('it'), expr_scope=None)
+                return w.node('Nodes', 'ForInStatNode', target=tn, iterator=it_node, item=opaque('next'), body=stmts(s[3]), else_clause=opt(s[4]))
+            if k == 'forfrom':
+                tn = name(s[1])
+                obs[s[2]] = ('A', tn)
+                return w.node('Nodes', 'ForFromStatNode', target=tn, bound1=opaque('a'), bound2=opaque('b'), step=None, body=stmts(s[3]), else_clause=opt(s[4]))
+            if k == 'try':     # ('try', body, [handler body, ...], else|None)
+                clauses = [w.node('Nodes', 'ExceptClauseNode', pattern=[opaque('E')], target=None, body=stmts(b), exc_value=None) for b in s[2]]
+                return w.node('Nodes', 'TryExceptStatNode', body=stmts(s[1]), except_clauses=clauses, else_clause=opt(s[3]))
+            if k == 'match':   # ('match', [(binds: bool, guard: bool, body)...])  -- case patterns are opaque; a capture pattern binds x when the case is selected
+                cases = []
+                for binds, guard, body in s[1]:
+                    ta = None
+                    if binds is not None:
+                        n = name('x')
+                        obs[binds] = ('A', n)
+                        ta = w.node('Nodes', 'StatListNode', stats=[w.node('Nodes', 'SingleAssignmentNode', lhs=n, rhs=opaque('capture'))])
+                    cases.append(w.node('MatchCaseNodes', 'MatchCaseNode', pattern=w.node('MatchCaseNodes', 'PatternNode', **{'$tag': 'pattern'}), target_assignments=ta, comp_node=None,
+                                        guard=opaque('guard') if guard else None, body=stmts(body)))
+                return w.node('MatchCaseNodes', 'MatchNode', subject=opaque('subject'), cases=cases)
+            if k == 'tryfinally':   # ('tryfinally', body, finally body)
+                # the compiler analyses (and generates) one copy of the finally clause for the exceptional entry and one for all other entries;
+                # observation points of the exceptional copy get the ids ('x', id)
+                return w.node('Nodes', 'TryFinallyStatNode', body=stmts(s[1]), finally_clause=stmts(s[2]), finally_except_clause=stmts(retag(s[2])))
+            raise ValueError(k)
+        return stmts(prog), obs
+
+    def analyse(self, prog, vars_=('x',)):
+        """the repository's analysis on one scenario -> {observation id: (kind, cf_maybe_null, cf_is_null)}"""
+        it = self.it
+        it.steps = 0
+        del self.messages[:]
+        entries = {v: Obj(self.EntryStub, dict(name=v, type=self.pytype, scope=Obj(self.ScopeStub), cf_assignments=[], cf_references=[], pos=self.pos, cf_used=True)) for v in vars_}
+        body, obs = self.build(prog, entries)
+        scope = Obj(self.ScopeStub, dict(entries=dict(entries), name='f'))
+        func = self.node('Nodes', 'DefNode', args=[], star_arg=None, starstar_arg=None, body=body, is_generator=False, local_scope=scope, decorators=None, used=False)
+        cfa = Obj(it.cls('FlowControl', 'ControlFlowAnalysis'))
+        cfa.attrs.update(dict(env=Obj(self.ScopeStub, dict(entries={})), flow=it.call(it.cls('FlowControl', 'ControlFlow'), [], {}), stack=[], reductions=set(),
+                              in_inplace_assignment=False, in_assignment_expression=False, object_expr=self.node('ExprNodes', 'NullNode'),
+                              constant_folder=HostFn(lambda it_, n: n, 'constant_folder'), gv_ctx=None,
+                              current_directives={'control_flow.dot_output': '', 'control_flow.dot_annotate_defs': False, 'warn.maybe_uninitialized': False,
+                                                  'warn.unused_result': False, 'warn.unused': False, 'warn.unused_arg': False}))
+        it.call(it.getattr(cfa, 'visit_FuncDefNode'), [func], {})
+        return {k: (kind, bool(it.getattr(n, 'cf_maybe_null')), bool(it.getattr(n, 'cf_is_null'))) for k, (kind, n) in obs.items()}
+
+
+class RefSem:
+    """collecting semantics of a scenario program over the definedness of its variables (language reference: 7.2, 7.5, 8.1-8.4, 6.11-6.13):
+    every condition, iteration count and raising point is nondeterministic; states are sorted tuples of (variable, U|A)"""
+
+    def __init__(self):
+        self.obs = {}
+
+    def observe(self, oid, var, S):
+        self.obs.setdefault(oid, set()).update(dict(st)[var] for st in S)
+
+    @staticmethod
+    def setv(st, var, v):
+        d = dict(st)
+        d[var] = v
+        return tuple(sorted(d.items()))
+
+    @staticmethod
+    def merge(out, o):
+        for k, v in o.items():
+            if v:
+                out.setdefault(k, set()).update(v)
+
+    def block(self, stmts, S, exc_copy=False):
+        out = {}
+        cur = set(S)
+        for s in stmts:
+            if not cur:
+                break
+            o = self.stmt(s, cur, exc_copy)
+            cur = o.pop('normal', set())
+            self.merge(out, o)
+        if cur:
+            out.setdefault('normal', set()).update(cur)
+        return out
+
+    def expr(self, e, S):
+        """-> (states after normal evaluation, states in which it raised)"""
+        k = e[0]
+        S = set(S)
+        if k == 'c':
+            return S, set(S)
+        if k == 'W':
+            self.observe(e[2], e[1], S)
+            return {self.setv(st, e[1], A) for st in S}, set(S)
+        if k == 'N':
+            self.observe(e[2], e[1], S)
+            bound = {st for st in S if dict(st)[e[1]] == A}
+            return bound, S - bound
+        if k in ('and', 'or'):
+            n1, r1 = self.expr(e[1], S)
+            n2, r2 = self.expr(e[2], n1)
+            return n1 | n2, r1 | r2
+        if k == 'cond':
+            nc, rc = self.expr(e[1], S)
+            nt, rt = self.expr(e[2], nc)
+            nf, rf = self.expr(e[3], nc)
+            return nt | nf, rc | rt | rf
+        raise ValueError(k)
+
+    def stmt(self, s, S, exc_copy=False):
+        k = s[0]
+        S = set(S)
+        oid = (lambda i: ('x', i)) if exc_copy else (lambda i: i)
+        if k == 'A':
+            self.observe(oid(s[2]), s[1], S)
+            return {'raise': set(S), 'normal': {self.setv(st, s[1], A) for st in S}}
+        if k in ('D', 'R'):
+            self.observe(oid(s[2]), s[1], S)
+            bound = {st for st in S if dict(st)[s[1]] == A}
+            o = {'raise': S - bound}
+            o['normal'] = {self.setv(st, s[1], U) for st in bound} if k == 'D' else bound
+            return {kk: v for kk, v in o.items() if v}
+        if k == 'C':
+            return {'normal': set(S), 'raise': set(S)}
+        if k == 'E':
+            n, r = self.expr(s[1], S)
+            return {kk: v for kk, v in (('normal', n), ('raise', r)) if v}
+        if k == 'pass':
+            return {'normal': S}
+        if k in ('break', 'continue', 'return'):
+            return {k: S}
+        if k == 'raise':
+            return {'raise': S}
+        if k == 'if':
+            out = {'raise': set(S)}           # a condition may raise
+            for body in s[1]:
+                self.merge(out, self.block(body, S))
+            self.merge(out, self.block(s[2], S) if s[2] is not None else {'normal': S})
+            return out
+        if k in ('while', 'for', 'forfrom'):
+            body, orelse = (s[1], s[2]) if k == 'while' else (s[3], s[4])
+            out = {'raise': set(S)}           # the condition / iterator / bounds may raise
+            head = set(S)
+            while True:
+                inner = set(head)
+                if k != 'while':
+                    self.observe(s[2], s[1], inner)
+                    inner = {self.setv(st, s[1], A) for st in inner}
+                o = self.block(body, inner)
+                new = head | o.get('normal', set()) | o.get('continue', set())
+                if new == head:
+                    break
+                head = new
+            out['raise'] |= head              # ... in any iteration
+            self.merge(out, {kk: v for kk, v in o.items() if kk in ('return', 'raise')})
+            self.merge(out, {'normal': o.get('break', set())})
+            self.merge(out, self.block(orelse, head) if orelse is not None else {'normal': head})
+            return out
+        if k == 'try':
+            out = {}
+            o = self.block(s[1], S)
+            raised = o.pop('raise', set())
+            normal = o.pop('normal', set())
+            self.merge(out, o)
+            if raised:
+                out.setdefault('raise', set()).update(raised)      # matched by no clause / the match expression raises
+                for hb in s[2]:
+                    self.merge(out, self.block(hb, raised))
+            if normal:
+                self.merge(out, self.block(s[3], normal) if s[3] is not None else {'normal': normal})
+            return out
+        if k == 'match':
+            out = {'raise': set(S)}           # the subject / a pattern / a guard may raise
+            cur = set(S)
+            for binds, guard, body in s[1]:
+                sel = set(cur)
+                if binds is not None:
+                    self.observe(binds, 'x', sel)
+                    sel = {self.setv(st, 'x', A) for st in sel}     # the capture is bound before the guard runs
+                    out['raise'] |= sel
+                self.merge(out, self.block(body, sel))
+                cur = cur | (sel if guard else set())               # a failing guard falls through to the next case with the capture bound
+            self.merge(out, {'normal': cur})
+            return out
+        if k == 'tryfinally':
+            out = {}
+            for kind, states in self.block(s[1], S).items():
+                if not states:
+                    continue
+                f = self.block(s[2], states, exc_copy=(kind == 'raise'))
+                fn = f.pop('normal', set())
+                self.merge(out, f)            # a jump / exception in the finally clause replaces the pending one
+                self.merge(out, {kind: fn})
+            return out
+        raise ValueError(k)
+
+
+def show_prog(block, ind=0, mark=None):
+    pad = '    ' * ind
+    lines = []
+    m = lambda i: '    # <-- here' if (mark is not None and (i == mark or ('x', i) == mark)) else ''
+
+    def ex(e):
+        k = e[0]
+        return {'c': lambda: 'c()', 'W': lambda: '(%s := f())%s' % (e[1], m(e[2]) and '<--here'), 'N': lambda: e[1] + (m(e[2]) and '<--here'), 'and': lambda: '(%s and %s)' % (ex(e[1]), ex(e[2])),
+                'or': lambda: '(%s or %s)' % (ex(e[1]), ex(e[2])), 'cond': lambda: '(%s if %s else %s)' % (ex(e[2]), ex(e[1]), ex(e[3]))}[k]()
+    for s in block:
+        k = s[0]
+        if k == 'A':
+            lines.append(pad + '%s = f()' % s[1] + m(s[2]))
+        elif k == 'D':
+            lines.append(pad + 'del %s' % s[1] + m(s[2]))
+        elif k == 'R':
+            lines.append(pad + 'use(%s)' % s[1] + m(s[2]))
+        elif k == 'C':
+            lines.append(pad + 'f()')
+        elif k == 'E':
+            lines.append(pad + ex(s[1]))
+        elif k in ('pass',) + JUMPS:
+            lines.append(pad + k)
+        elif k == 'if':
+            for i, b in enumerate(s[1]):
+                lines.append(pad + ('if c():' if i == 0 else 'elif c():'))
+                lines += show_prog(b or [('pass',)], ind + 1, mark)
+            if s[2] is not None:
+                lines.append(pad + 'else:')
+                lines += show_prog(s[2] or [('pass',)], ind + 1, mark)
+        elif k in ('while', 'for', 'forfrom'):
+            body, orelse = (s[1], s[2]) if k == 'while' else (s[3], s[4])
+            lines.append(pad + ('while c():' if k == 'while' else 'for %s in %s:' % (s[1], 'it' if k == 'for' else 'range(a, b)') + m(s[2])))
+            lines += show_prog(body or [('pass',)], ind + 1, mark)
+            if orelse is not None:
+                lines.append(pad + 'else:')
+                lines += show_prog(orelse or [('pass',)], ind + 1, mark)
+        elif k == 'try':
+            lines.append(pad + 'try:')
+            lines += show_prog(s[1] or [('pass',)], ind + 1, mark)
+            for hb in s[2]:
+                lines.append(pad + 'except E:')
+                lines += show_prog(hb or [('pass',)], ind + 1, mark)
+            if s[3] is not None:
+                lines.append(pad + 'else:')
+                lines += show_prog(s[3] or [('pass',)], ind + 1, mark)
+        elif k == 'match':
+            lines.append(pad + 'match subject:')
+            for binds, guard, body in s[1]:
+                lines.append(pad + '    case %s%s:%s' % ('x' if binds is not None else '<pattern>', ' if guard()' if guard else '', m(binds) if binds is not None else ''))
+                lines += show_prog(body or [('pass',)], ind + 2, mark)
+        elif k == 'tryfinally':
+            lines.append(pad + 'try:')
+            lines += show_prog(s[1] or [('pass',)], ind + 1, mark)
+            lines.append(pad + 'finally:')
+            lines += show_prog(s[2] or [('pass',)], ind + 1, mark)
+    return lines
+
+
+def number_prog(prog):
+    """consecutive ids for the observation points"""
+    c = itertools.count(1)
+
+    def ex(e):
+        k = e[0]
+        if k in ('W', 'N'):
+            return (k, e[1], next(c))
+        if k in ('and', 'or'):
+            a = ex(e[1])
+            return (k, a, ex(e[2]))
+        if k == 'cond':
+            a = ex(e[1])
+            b = ex(e[2])
+            return (k, a, b, ex(e[3]))
+        return e
+
+    def blk(b):
+        out = []
+        for s in b:
+            k = s[0]
+            if k in ('A', 'D', 'R'):
+                out.append((k, s[1], next(c)))
+            elif k == 'E':
+                out.append(('E', ex(s[1])))
+            elif k == 'if':
+                bodies = [blk(x) for x in s[1]]
+                out.append(('if', bodies, blk(s[2]) if s[2] is not None else None))
+            elif k == 'while':
+                b1 = blk(s[1])
+                out.append(('while', b1, blk(s[2]) if s[2] is not None else None))
+            elif k in ('for', 'forfrom'):
+                i = next(c)
+                b1 = blk(s[2])
+                out.append((k, s[1], i, b1, blk(s[3]) if s[3] is not None else None))
+            elif k == 'try':
+                b1 = blk(s[1])
+                hs = [blk(h) for h in s[2]]
+                out.append(('try', b1, hs, blk(s[3]) if s[3] is not None else None))
+            elif k == 'tryfinally':
+                b1 = blk(s[1])
+                out.append(('tryfinally', b1, blk(s[2])))
+            elif k == 'match':
+                cases = []
+                for binds, guard, body in s[1]:
+                    i = next(c) if binds else None
+                    cases.append((i, guard, blk(body)))
+                out.append(('match', cases))
+            else:
+                out.append(s)
+        return out
+    return blk(prog)
+
+
+def prog_shape(prog):
+    """the compound statement kinds of a scenario, outermost first (part of the construct key)"""
+    out = []
+
+    def ex(e):
+        if e[0] in ('and', 'or'):
+            out.append('boolop')
+            ex(e[1]), ex(e[2])
+        elif e[0] == 'cond':
+            out.append('condexpr')
+            ex(e[1]), ex(e[2]), ex(e[3])
+        elif e[0] == 'W':
+            out.append('walrus')
+
+    def blk(b):
+        for s in b or ():
+            k = s[0]
+            if k == 'E':
+                ex(s[1])
+            elif k == 'if':
+                out.append('if' if len(s[1]) == 1 else 'elif')
+                for x in s[1]:
+                    blk(x)
+                blk(s[2])
+            elif k == 'while':
+                out.append(k)
+                blk(s[1]), blk(s[2])
+            elif k in ('for', 'forfrom'):
+                out.append(k)
+                blk(s[3]), blk(s[4])
+            elif k == 'try':
+                out.append('try')
+                blk(s[1])
+                for h in s[2]:
+                    blk(h)
+                blk(s[3])
+            elif k == 'tryfinally':
+                out.append('tryfinally')
+                blk(s[1]), blk(s[2])
+            elif k == 'match':
+                out.append('match')
+                for binds, guard, body in s[1]:
+                    blk(body)
+            elif k in JUMPS:
+                out.append(k)
+    blk(prog)
+    seen = []
+    for x in out:
+        if x not in seen:
+            seen.append(x)
+    return '/'.join(seen) or 'straight-line'
+
+
+def has_del_in_try(prog):
+    """a `del` of the variable in the dynamic extent of a try body (try/except or try/finally)"""
+    def blk(b, intry):
+        for s in b or ():
+            k = s[0]
+            if k == 'D' and intry:
+                return True
+            if k == 'if' and (any(blk(x, intry) for x in s[1]) or blk(s[2], intry)):
+                return True
+            if k == 'while' and (blk(s[1], intry) or blk(s[2], intry)):
+                return True
+            if k in ('for', 'forfrom') and (blk(s[-2], intry) or blk(s[-1], intry)):
+                return True
+            if k == 'try' and (blk(s[1], True) or any(blk(h, intry) for h in s[2]) or blk(s[3], intry)):
+                return True
+            if k == 'tryfinally' and (blk(s[1], True) or blk(s[2], intry)):
+                return True
+            if k == 'match' and any(blk(body, intry) for _, _, body in s[1]):
+                return True
+        return False
+    return blk(prog, False)
+
+
+def cfg_scenarios():
+    """the scenario family (unnumbered programs over the one variable x); see the module comment for the partition it enumerates"""
+    a, d, r, c = ('A', 'x'), ('D', 'x'), ('R', 'x'), ('C',)
+    br, co, ret, rs = ('break',), ('continue',), ('return',), ('raise',)
+    post = [r]
+    out = []
+
+    def has_d(b):
+        return any(t == d or (isinstance(t, (tuple, list)) and has_d(t)) for t in b if isinstance(t, (tuple, list)))
+
+    def add(p):
+        # prelude: the variable is bound before the statement iff the statement unbinds it somewhere (otherwise nothing could become unbound / stay unbound)
+        if p and p[0] == 'PRE':
+            p = ([a] if has_d(p[1:]) else []) + p[1:]
+        if p not in out:
+            out.append(p)
+    # straight-line code (block walk of check_definitions)
+    for sl in ([a, r], [a, d, r], [d, r], [a, d, a, r], [a, r, d, r, a, r]):
+        add(sl)
+    for p in (['PRE'],):
+        # if / elif / else
+        for b1 in ([a], [d], [ret], [rs], [a, ret], [d, r]):
+            for e in (None, [], [a], [d]):
+                add(p + [('if', [b1], e)] + post)
+        for b1 in ([a], [d]):
+            for b2 in ([a], [d], [ret]):
+                add(p + [('if', [b1, b2], None)] + post)
+                add(p + [('if', [b1, b2], [a])] + post)
+        # loops: body = read at the top + one behaviour class; else clause absent / observing and unbinding
+        for b1 in ([], [a], [d], [br], [a, br], [d, br], [d, co], [a, co], [('if', [[d, br]], None), a], [('if', [[co]], None), d]):
+            for e in (None, [r, d]):
+                add(p + [('while', [r] + b1, e)] + post)
+                add(p + [('for', 'x', [r] + b1, e)] + post)
+                add(p + [('forfrom', 'x', [r] + b1, e)] + post)
+        # try / except / else
+        for b1 in ([a], [a, c], [c, a], [d, c], [d, a], [a, rs], [a, ret]):
+            for h in ([r], [a], [r, d], [r, rs]):
+                for e in (None, [r, d]):
+                    add(p + [('try', b1, [h], e)] + post)
+        add(p + [('try', [a, c], [[a], [d]], None)] + post)
+        # try / finally, alone, with jumps through the finally clause, nested with try / except
+        for b1 in ([a], [a, c], [c, a], [d, c], [d, a], [a, ret], [d, ret]):
+            for f in ([r], [r, d], [a]):
+                add(p + [('tryfinally', b1, f)] + post)
+        for b1 in ([a, br], [d, br], [a, co], [d, co], [('if', [[a, br]], None), d]):
+            for f in ([r], [r, d]):
+                add(p + [('while', [r, ('tryfinally', b1, f), d], [r])] + post)
+                add(p + [('for', 'x', [('tryfinally', b1, f), d], None)] + post)
+        for b1 in ([a], [a, c], [d, c]):
+            add(p + [('try', [('tryfinally', b1, [r])], [[r]], None)] + post)
+            add(p + [('tryfinally', [('try', b1, [[r, d]], None)], [r])] + post)
+            add(p + [('while', [('try', b1 + [br], [[d, co]], None)], [r])] + post)
+            add(p + [('try', [('try', b1, [[rs]], None)], [[r]], None)] + post)
+    # match statements: capture patterns bind before the guard; no case may be selected
+    for c1 in ((True, False, [r]), (True, True, [r]), (False, False, [a]), (False, True, [d])):
+        for c2 in (None, (True, False, []), (False, False, [a]), (False, True, [d, r])):
+            add(['PRE', ('match', [c1] + ([c2] if c2 else []))] + post)
+    # expressions: boolean operators, conditional expressions, assignment expressions
+    W, N, C = ('W', 'x'), ('N', 'x'), ('c',)
+    for e in (('and', C, W), ('or', C, W), ('and', W, C), ('cond', C, W, C), ('cond', C, C, W), ('cond', W, C, C), ('and', ('and', C, W), C), ('or', ('and', C, W), N),
+              ('and', C, ('cond', C, W, C)), ('cond', ('and', C, W), N, N), ('and', ('or', C, W), N), ('cond', C, ('and', C, W), N)):
+        add([('E', e)] + post)
+        add([('if', [[('E', e)]], None)] + post)
+    return out
+
+
+def cfg_compare(real, got):
+    """-> [(observation id, node kind, code)] for the flags that contradict the reference semantics"""
+    bad = []
+    for oid, (kind, maybe, isnull) in sorted(got.items(), key=str):
+        states = real.get(oid, set())
+        if U in states and not (maybe or isnull):
+            bad.append((oid, kind, 'unbound-missed'))
+        if A in states and isnull:
+            bad.append((oid, kind, 'bound-missed'))
+    return bad
+
+
+CFG_DESC = ('definedness analysis decided end to end on a family of abstract programs (every compound statement kind x the behaviour classes of its child blocks): wherever an '
+            'execution reaches a name while it is unbound the analysis sets cf_maybe_null, wherever one reaches it bound it leaves cf_is_null unset')
+
+
+def rule_cfg(ctx, part='main', floor=0):
+    """part 'main': all scenarios without a `del` inside a try body; part 'deltry': the ones with (pending finding, see props/C21.py)"""
+    ix = ctx.index
+    r = Rule('C21-CFG' if part == 'main' else 'C21-CFG-DELTRY', CFG_DESC, floor)
+    m = ix.mod('FlowControl')
+    cfa = ix.cls('FlowControl', 'ControlFlowAnalysis')
+    w = CfgWorld(ix)
+    worst = {}
+    for prog in cfg_scenarios():
+        if has_del_in_try(prog) != (part == 'deltry'):
+            continue
+        nprog = number_prog(prog)
+        text = ' | '.join(l.strip() if not l.startswith(' ') else l.replace('    ', '>') for l in show_prog(nprog))
+        ref = RefSem()
+        ref.block(nprog, {(('x', U),)})
+        try:
+            got = w.analyse(nprog)
+        except Unmodelled as e:
+            raise AnalysisError('%s: the interpreter of the checker cannot follow FlowControl.py on the program [%s]: %s' % (r.id, text, e))
+        except PyRaise as e:
+            raise AnalysisError('%s: FlowControl.py raises %r while analysing the program [%s] (not decided)' % (r.id, e.value, text))
+        r.inst(text, sample='%s -> %s' % (text, ', '.join('%s@%s:%s%s' % (k, i, 'm' if mb else '-', 'n' if nl else '-') for i, (k, mb, nl) in sorted(got.items(), key=str))))
+        for oid, kind, code in cfg_compare(ref.obs, got):
+            key = '%s.%s:%s:%s' % (m.short, cfa.name, prog_shape(nprog), code)
+            size = len(show_prog(nprog))
+            if key not in worst or size < worst[key][0]:
+                worst[key] = (size, nprog, oid, kind)
+    for key, (size, nprog, oid, kind) in sorted(worst.items()):
+        where = {'A': 'the assignment target', 'D': 'the `del` target', 'R': 'the read'}[kind] + (' (copy of the finally clause entered by an exception)' if isinstance(oid, tuple) else '')
+        listing = ' | '.join(show_prog(nprog, mark=oid)).replace('    ', '>')
+        if key.endswith('unbound-missed'):
+            what = ('an execution reaches %s while x is unbound, but the analysis leaves cf_maybe_null and cf_is_null unset: no run-time check is generated, '
+                    'NULL is read / released instead of raising UnboundLocalError' % where)
+        else:
+            what = ('an execution reaches %s while x is bound, but the analysis sets cf_is_null: the old value is neither released nor (for `del`) unbound' % where)
+        r.violate(key, m.rel, cfa.node.lineno, 'definedness analysis (CFG construction + reaching definitions + cf_* hints) on the program [%s]: %s' % (listing, what))
+    # positive control: the comparison must reject an analysis result that omits the flag
+    prog = number_prog([('if', [[('A', 'x')]], None), ('R', 'x')])
+    ref = RefSem()
+    ref.block(prog, {(('x', U),)})
+    r.positive_control(any(c == 'unbound-missed' for _, _, c in cfg_compare(ref.obs, {2: ('R', False, False)})) and not cfg_compare(ref.obs, {2: ('R', True, False)}),
+                       'a read after `if c: x = f()` without cf_maybe_null is rejected')
+    return r
+
+
+# ================================================================================================================ C21-NULLSAFE
+# Emission sites that consult cf_maybe_null / cf_is_null choose between a NULL-tolerant reference-count primitive (put_xdecref*, put_xgotref,
+# generate_xdecref_set ...) and its NULL-intolerant twin (put_decref*, put_gotref, generate_decref_set ...).  For a name that may be unbound the
+# variable holds NULL, so the intolerant twin dereferences NULL.  Decided per method by partial evaluation of its tests under the two flag
+# valuations "bound" (maybe_null=False) and "maybe unbound" (maybe_null=True, is_null=False), all other tests kept as residual path conditions:
+#     every path condition under which an intolerant primitive is applied to the node's own variable for a maybe-unbound name
+#     (and no unbound check was emitted earlier on the path) is also one under which it is applied for a bound name
+# i.e. intolerance is never *caused* by cf_maybe_null.  Path conditions that assume an entry kind the flow analysis does not track
+# (ControlFlow.is_tracked: C globals, module globals, builtins keep the class defaults of the flags) are outside the rule.
+_REF_PRIMS = re.compile(r'^(put|generate|put_var)_(x?)(decref_set|decref_clear|decref|gotref|giveref)$')
+
+
+def _prim_kind(call, selfname='self'):
+    """'tolerant' | 'intolerant' | None for a call that applies a reference-count primitive to the node's own variable"""
+    f = call.func
+    if not isinstance(f, ast.Attribute):
+        return None
+    m = _REF_PRIMS.match(f.attr)
+    if not m or m.group(3) == 'giveref':
+        return None
+    own = False
+    if isinstance(f.value, ast.Name) and f.value.id == selfname:
+        own = True                                   # self.generate_decref_set(code, rhs) ...
+        for k in call.keywords:
+            if k.arg == 'handle_null' and isinstance(k.value, ast.Constant) and k.value.value is True:
+                return None                          # the callee decides (it is analysed itself)
+    elif call.args:
+        a0 = ast.unparse(call.args[0])
+        own = a0 in (selfname + '.result()', selfname + '.entry', 'entry', selfname + '.entry.cname', 'entry.cname', selfname + '.py_result()')
+    if not own:
+        return None
+    return 'tolerant' if m.group(2) else 'intolerant'
+
+
+def _tracked_kinds(ix):
+    fn = ix.find_method(ix.cls('FlowControl', 'ControlFlow'), 'is_tracked')
+    if fn is None:
+        raise AnalysisError('ControlFlow.is_tracked vanished')
+    return {n.attr for n in ast.walk(fn[1]) if isinstance(n, ast.Attribute) and isinstance(n.value, ast.Name) and n.value.id == 'entry'}
+
+
+def _prim_sites(fn, flags):
+    """-> {kind: set of path contexts (frozenset of (residual test, truth))} for the primitive calls of one method under fixed flag values;
+    contexts of sites that follow an emitted unbound check on the same path carry the marker ('<checked>', True)"""
+    from . import pC21
+    counts = {}
+    for n in walk_no_nested(fn):
+        if isinstance(n, ast.Assign) and len(n.targets) == 1 and isinstance(n.targets[0], ast.Name):
+            counts.setdefault(n.targets[0].id, []).append(n.value)
+        elif isinstance(n, (ast.AugAssign, ast.For, ast.With)):
+            for x in ast.walk(n.target if hasattr(n, 'target') else n):
+                if isinstance(x, ast.Name) and isinstance(x.ctx, ast.Store):
+                    counts.setdefault(x.id, []).extend([None, None])
+    params = {a.arg for a in fn.args.args + fn.args.kwonlyargs}
+    inline = {k: v[0] for k, v in counts.items() if len(v) == 1 and v[0] is not None and k not in params}
+    inline = {k: v for k, v in inline.items() if any(pC21.is_self_attr(x) and x.attr in pC21.FLAG_ATTRS for x in ast.walk(v)) or
+              any(isinstance(x, ast.Name) and x.id in inline for x in ast.walk(v)) or isinstance(v, (ast.Attribute, ast.BoolOp, ast.UnaryOp, ast.Compare))}
+    tri = pC21._Tri(flags, inline)
+    found = {'tolerant': set(), 'intolerant': set()}
+    selfname = fn.args.args[0].arg if fn.args.args else 'self'
+
+    def scan(s, ctxt):
+        for n in ast.walk(s):
+            if isinstance(n, ast.Call):
+                if isinstance(n.func, ast.Attribute) and 'unbound' in n.func.attr:
+                    ctxt = ctxt | {('<checked>', True)}
+                k = _prim_kind(n, selfname)
+                if k:
+                    found[k].add(frozenset(ctxt))
+        return ctxt
+
+    def extend(ctxt, test, truth):
+        if (test, not truth) in ctxt:
+            return None                       # contradicts an earlier decision on the same residual test
+        return ctxt | {(test, truth)}
+
+    def block(stmts, paths):
+        """path-sensitive: -> set of path contexts that fall through"""
+        for s in stmts:
+            if not paths:
+                return paths
+            if len(paths) > 3000:
+                raise AnalysisError('%s: more than 3000 paths' % fn.name)
+            if isinstance(s, ast.If):
+                v = tri.ev(s.test)
+                if v is True:
+                    paths = block(s.body, paths)
+                elif v is False:
+                    paths = block(s.orelse, paths)
+                else:
+                    pt = {c for c in (extend(p, v, True) for p in paths) if c is not None}
+                    pf = {c for c in (extend(p, v, False) for p in paths) if c is not None}
+                    paths = block(s.body, pt) | block(s.orelse, pf)
+                continue
+            if isinstance(s, (ast.For, ast.While, ast.With, ast.Try)):
+                out = set(paths)
+                for fld in ('body', 'orelse', 'finalbody'):
+                    out |= block(getattr(s, fld, []) or [], paths)
+                for h in getattr(s, 'handlers', []) or []:
+                    out |= block(h.body, paths)
+                paths = out
+                continue
+            paths = {scan(s, p) for p in paths}
+            if isinstance(s, (ast.Return, ast.Raise)):
+                return set()
+        return paths
+    block(fn.body, {frozenset()})
+    return found
+
+
+def nullsafe_problems(fn, tracked):
+    """-> [path condition text] of intolerant applications caused by cf_maybe_null"""
+    bound = _prim_sites(fn, {'cf_maybe_null': False, 'cf_is_null': False})
+    maybe = _prim_sites(fn, {'cf_maybe_null': True, 'cf_is_null': False})
+    out = []
+    for c in sorted(maybe['intolerant'], key=lambda c: sorted(map(str, c))):
+        if ('<checked>', True) in c:
+            continue
+        untracked = False
+        for t, tr in c:
+            mm = re.findall(r'\bentry\.(is_\w+|from_closure|in_closure)\b', t)
+            if tr and mm and not any(x in tracked for x in mm) and ' or ' not in t and 'not ' not in t:
+                untracked = True
+        if untracked:
+            continue
+        if any(b <= c for b in bound['intolerant']):
+            continue
+        out.append(' and '.join(('(%s)' if tr else 'not (%s)') % (t, ) for t, tr in sorted(c, key=str)) or 'always')
+    return out, bound, maybe
+
+
+def rule_nullsafe(ctx, floor=3):
+    ix = ctx.index
+    r = Rule('C21-NULLSAFE', 'emission sites governed by cf_maybe_null: a NULL-intolerant reference-count primitive (decref/decref_set/decref_clear/gotref) is applied to the '
+             'variable of a maybe-unbound name only under path conditions under which it is also applied for a bound name (or after an emitted unbound check)', floor)
+    tracked = _tracked_kinds(ix)
+    m = ix.mod('ExprNodes')
+    code = ix.cls('Code', 'CCodeWriter')
+    for c in sorted(m.classes.values(), key=lambda c: c.name):
+        for name, fn in sorted(c.methods.items()):
+            if not any(isinstance(n, ast.Attribute) and n.attr == 'cf_maybe_null' and isinstance(n.ctx, ast.Load) for n in walk_no_nested(fn)):
+                continue
+            if not any(isinstance(n, ast.Call) and _prim_kind(n, fn.args.args[0].arg if fn.args.args else 'self') for n in walk_no_nested(fn)):
+                continue
+            key = '%s.%s:intolerant-under-maybe_null' % (c.qual, name)
+            probs, bound, maybe = nullsafe_problems(fn, tracked)
+            r.inst(key, sample='%s.%s: intolerant primitive reached on %d path condition(s) for a bound name, %d for a maybe-unbound one; tolerant: %d / %d' % (
+                c.qual, name, len(bound['intolerant']), len(maybe['intolerant']), len(bound['tolerant']), len(maybe['tolerant'])))
+            for p in probs[:1]:
+                r.violate(key, m.rel, fn.lineno, '%s.%s applies a NULL-intolerant reference-count primitive (decref / decref_set / decref_clear / gotref) to the variable of a name whose '
+                          'cf_maybe_null is set, under the path condition [%s] under which a bound name does not get it: for an unbound local the variable is NULL, the '
+                          'generated code dereferences NULL (Py_DECREF(NULL)) instead of tolerating / reporting the unbound name' % (c.name, name, p))
+    # the tolerant twin of every intolerant emitter exists in Code.py (premise of the classification by name)
+    for name in sorted(code.methods):
+        mm = _REF_PRIMS.match(name)
+        if mm and not mm.group(2) and mm.group(3) != 'giveref':
+            twin = '%s_x%s' % (mm.group(1), mm.group(3))
+            if twin not in code.methods:
+                r.info('Code.CCodeWriter.%s has no NULL-tolerant twin %s' % (name, twin))
+    pc = ast.parse("def generate_assignment_code(self, rhs, code):\n    if not self.cf_is_null:\n        if not self.cf_maybe_null:\n            self.generate_xdecref_set(code, rhs.result())\n"
+                   "        else:\n            self.generate_decref_set(code, rhs.result())\n").body[0]
+    r.positive_control(bool(nullsafe_problems(pc, tracked)[0]), 'decref_set chosen because the name may be unbound')
+    return r
